@@ -588,7 +588,7 @@ def fr_setup(d, layer, shard=0, nshards=1):
     """layer 'axes': every axis selection, out_shape form, copying form (the length relations are explored by the code's own
     branches; real / complex input alternates with the selection from 3-D on);
     layer 'forms': argument forms (factors scalar / tuple, out_shape, in-place) and the error cases; 1-D: on every selection,
-    2-D: None, reversed tuple, int; 3-D/4-D: all forms on a single int axis, in-place scalar factor on all axes."""
+    2-D: None, reversed tuple, int; 3-D/4-D: all forms on a single int axis, in-place out_shape on all axes."""
     if layer == "axes":
         aopts = [o for k, o in enumerate(fr_axes_options(d)) if k % nshards == shard]
     else:
@@ -609,7 +609,7 @@ def fr_setup(d, layer, shard=0, nshards=1):
             si, scenario = choose(ctx, "scenario", FR_SCENARIOS if d <= 2 else ["normal"])
             ai, (aform, axes, denoted) = choose(ctx, "axes_opt", aopts if scenario == "normal" else aopts[:1])
             if scenario == "normal":
-                forms = FR_FORMS if (d <= 2 or aform == "int") else FR_FORMS[1:2]
+                forms = FR_FORMS if (d <= 2 or aform == "int") else FR_FORMS[2:3]
                 fi, (form, inplace) = choose(ctx, "form_opt", forms)
                 is_real = choose(ctx, "real_opt", [True, False])[1] if d == 1 else (ai + fi) % 2 == 0
             else:
@@ -699,16 +699,14 @@ def fr_ensures(s):
     want = z3.If(AND(*present) if present else z3.BoolVal(True), G(*kidx), z3.RealVal(0))
     out.append((L("spectrum placement: one fftn of self.array / one ifftn over exactly the selected axes; output bin q holds the input bin of the same signed frequency, 0 if the input has none (DC stays DC, odd/even)"),
                 AND(hshape, implies(inr, lift(S(Hfn(*q))) == want))))
-    scale = z3.RealVal(1)
+    n_out, n_in = z3.IntVal(1), z3.IntVal(1)
     for a in A:
-        scale = scale * z3.ToReal(m_of[a])
-    den = z3.RealVal(1)
-    for a in A:
-        den = den * z3.ToReal(n[a])
+        n_out, n_in = n_out * m_of[a], n_in * n[a]
     y = Y(*q)
     if c.is_real:
         y = cm.RE(y)
-    out.append((L("result = (N_out/N_in) * " + ("Re " if c.is_real else "") + "ifftn(placed spectrum)"), implies(inr, lift(S(arr.fn(*q))) * den == scale * y)))
+    out.append((L("result = (N_out/N_in) * " + ("Re " if c.is_real else "") + "ifftn(placed spectrum),  N = number of samples on the selected axes"),
+                implies(inr, lift(S(arr.fn(*q))) == z3.ToReal(n_out) / z3.ToReal(n_in) * y)))
     samp, orig = [], []
     for i in range(d):
         s_old, o_old = lift(S(s.old.sampling(z3.IntVal(i)))), lift(S(s.old.origin(z3.IntVal(i))))
